@@ -52,11 +52,45 @@ pub struct Case {
     /// the previous run returned (what the REPL and embedders that keep a context do)
     #[serde(default)]
     pub cuts: Vec<usize>,
+    /// the process environment of the run holds a variable whose value is not UTF-8 (F16)
+    #[serde(default)]
+    pub odd_env: bool,
+}
+
+/// commands that act on the process environment, the temporary directory and test files: kept out of every other
+/// world; here the run gets a fixed environment of its own (restored afterwards) and a /tmp inside the jail
+pub const EXTRA: [&str; 8] = ["set_env", "unset_env", "get_env", "env_to_map", "print_env", "temp_file", "temp_dir", "test_directory"];
+
+/// replaces the process environment by a small fixed one; returns what was there
+fn enter_fixed_env(odd: bool) -> Vec<(std::ffi::OsString, std::ffi::OsString)> {
+    use std::os::unix::ffi::OsStringExt;
+    let saved: Vec<(std::ffi::OsString, std::ffi::OsString)> = std::env::vars_os().collect();
+    for (k, _) in &saved {
+        std::env::remove_var(k);
+    }
+    std::env::set_var("PATH", "/bin");
+    std::env::set_var("HOME", "/");
+    std::env::set_var("TMPDIR", "/tmp");
+    std::env::set_var("DSIM_V", "h\u{e9}llo");
+    if odd {
+        std::env::set_var("DSIM_ODD", std::ffi::OsString::from_vec(vec![b'a', 0xff, b'b']));
+    }
+    saved
+}
+
+fn leave_fixed_env(saved: Vec<(std::ffi::OsString, std::ffi::OsString)>) {
+    let now: Vec<std::ffi::OsString> = std::env::vars_os().map(|(k, _)| k).collect();
+    for k in now {
+        std::env::remove_var(k);
+    }
+    for (k, v) in saved {
+        std::env::set_var(k, v);
+    }
 }
 
 pub const STEP_BUDGET: u64 = 20_000;
 
-const PRELUDE: [&str; 12] = [
+const PRELUDE: [&str; 14] = [
     "arr = array a b \"c d\" 3",
     "arr0 = array",
     "mp = map",
@@ -69,6 +103,8 @@ const PRELUDE: [&str; 12] = [
     "v1 = set 5",
     "writefile run/c07/f.txt \"line one\"",
     "mkdir run/c07/d",
+    "nulb = base64_decode AA==",
+    "nul = bytes_to_string ${nulb}",
 ];
 
 const NUMBERS: [&str; 28] = [
@@ -77,9 +113,9 @@ const NUMBERS: [&str; 28] = [
     "9223372036854775807", "-9223372036854775808", "18446744073709551615", "4294967296", "2147483648", "-2147483649", "65536", "255",
     "170141183460469231731687303715884105727", "-170141183460469231731687303715884105728", "-170141183460469231731687303715884105727", "340282366920938463463374607431768211455",
 ];
-const TEXTS: [&str; 16] = ["hello", "h\u{e9}llo", "\u{6f22}\u{5b57}", "", "a b", "true", "false", "0", "%", "${v0}", "${undefined}", "x=y", "1.2.3", "{\"a\":[1,2,{\"b\":null}]}", "-", "a,b,,c"];
+const TEXTS: [&str; 18] = ["hello", "h\u{e9}llo", "\u{6f22}\u{5b57}", "", "a b", "true", "false", "0", "%", "${v0}", "${undefined}", "x=y", "1.2.3", "{\"a\":[1,2,{\"b\":null}]}", "-", "a,b,,c", "${nul}", "A${nul}"];
 const HANDLES: [&str; 9] = ["${arr}", "${arr0}", "${mp}", "${st}", "${bytes}", "${released}", "nohandle", "handle:zzzzzzzzzzzzzzzzzzzz", "${r0}"];
-const PATHS: [&str; 9] = ["run/c07/f.txt", "run/c07/d", "run/c07/missing.txt", "", ".", "run/c07/*.txt", "run/c07/d/new.txt", "run/c07", "run/c07/f.txt/x"];
+const PATHS: [&str; 10] = ["run/c07/f.txt", "run/c07/d", "run/c07/missing.txt", "", ".", "run/c07/*.txt", "run/c07/d/new.txt", "run/c07", "run/c07/f.txt/x", "run/c07/${nul}"];
 const UNTYPED: [&str; 14] = ["a", "", "0", "-1", "${arr}", "h\u{e9}", "--help", "-r", "in", "and", "(", ")", "handle:", "${r1}"];
 
 fn q(v: &str) -> String {
@@ -126,7 +162,8 @@ fn family_of(name: &str) -> u8 {
 fn catalogue() -> &'static Vec<CmdInfo> {
     static CAT: std::sync::OnceLock<Vec<CmdInfo>> = std::sync::OnceLock::new();
     CAT.get_or_init(|| {
-        let c = gen::sdk_commands();
+        let mut c = gen::sdk_commands();
+        gen::add_sdk_commands(&mut c, &EXTRA);
         let mut names: Vec<String> = c.commands.keys().cloned().collect();
         names.sort();
         let mut v = vec![];
@@ -493,7 +530,14 @@ fn run_case(case: &Case, env: &WorkerEnv) -> Verdict {
     wipe_jail(env.chrooted);
     sim::phase("harness: preparing the run");
     let _ = std::fs::create_dir_all("run/c07");
+    if env.chrooted {
+        let _ = std::fs::create_dir_all("/tmp");
+    }
+    let saved_env = enter_fixed_env(case.odd_env);
     sim::reset(Some(Box::new(EnvStub)));
+    if case.odd_env {
+        sim::with_core(|c| c.fire("F15", "a variable of the process environment holds a value that is not UTF-8"));
+    }
     sim::with_core(|c| {
         c.budget = STEP_BUDGET;
         c.byte_budget = 256 << 20;
@@ -506,6 +550,7 @@ fn run_case(case: &Case, env: &WorkerEnv) -> Verdict {
         }
     });
     let mut context = gen::sdk_context();
+    gen::add_sdk_commands(&mut context.commands, &EXTRA);
     if !env.chrooted {
         // guard-only mode: without a jail the file-system family stays out of reach
         let names: Vec<String> = context.commands.commands.keys().filter(|k| k.starts_with("std::fs")).cloned().collect();
@@ -567,6 +612,7 @@ fn run_case(case: &Case, env: &WorkerEnv) -> Verdict {
             runner::run_script_file("run/c07/self.ds", context, Some(renv)).map(|_| ())
         }
     }));
+    leave_fixed_env(saved_env);
     wipe_jail(env.chrooted);
     match result {
         Err(_) => {
@@ -613,7 +659,7 @@ impl Prop for C07 {
     fn info(&self) -> PropInfo {
         PropInfo {
             level: "exploration",
-            rule: "seeded scripts against the whole SDK minus the blocking/process-global commands: (a) 1 run in 4: arbitrary text from a syntax-biased alphabet (CRLF/LF, control characters, pre-processor lines, deep parentheses, very long lines); (b) a prelude that builds live / released handles of every kind and files in the jail, then 1-25 library command lines whose arguments come from a typed pool per command family (numbers incl. negative / non-numeric / beyond i64, multi-byte text, empty, wrong-kind and released handles, option flags harvested from each command's usage line, jail paths) and from an untyped pool; out/err stream writes fail or are short at seed-chosen calls (F7); rarely a file that includes itself. Oracle: run_script returns under catch_unwind, the worker process survives, no single non-loop command performs >= 10000 nested invocations, a run without loop constructs finishes within 20000 steps, no native hang. Non-trivial = >= 3 steps (and a writer fault fired when one was planned); distinct = distinct abstract traces",
+            rule: "seeded scripts against the whole SDK minus the blocking / process-leaving commands (the environment commands, temp_file / temp_dir and test_directory are in: each run gets a small fixed process environment of its own, restored afterwards, and a /tmp inside the jail; one run in 30 starts with an environment variable whose value is not UTF-8, F15): (a) 1 run in 4: arbitrary text from a syntax-biased alphabet (CRLF/LF, control characters, pre-processor lines, deep parentheses, very long lines); (b) a prelude that builds live / released handles of every kind and files in the jail, then 1-25 library command lines whose arguments come from a typed pool per command family (numbers incl. negative / non-numeric / beyond i64, multi-byte text, empty, wrong-kind and released handles, option flags harvested from each command's usage line, jail paths) and from an untyped pool; out/err stream writes fail or are short at seed-chosen calls (F7); rarely a file that includes itself. Oracle: run_script returns under catch_unwind, the worker process survives, no single non-loop command performs >= 10000 nested invocations, a run without loop constructs finishes within 20000 steps, no native hang (a run that gives no answer within the time limit while executing a line that had completed earlier in the same run is a looping run and inconclusive, like one that exhausts the step budget in a loop). Non-trivial = >= 3 steps (and a writer fault fired when one was planned); distinct = distinct abstract traces",
             real: &["everything: parser, runner, the whole SDK minus S8 commands", "kernel tmpfs inside the chroot jail"],
             stub: &["out/err streams (SimWriter with fault plan)", "successful outputs of machine-reading commands (current_time, pid, hostname, os_*, get_last_modified_time, ...) are replaced by constants after the real command ran"],
             assumptions: &["removed because their purpose is to block, leave the process or change process-global state: read, sleep, exec, spawn, exit, watchdog, net/ftp/http, cd, set_env/unset_env, temp_dir/temp_file, test_directory/test_file, zip/unzip, chmod", "numbers that parse stay <= 100000 so that running out of memory by asking for it is not reported", "a budget hit in a run that loops at depth 0 is inconclusive, not a violation", "the larger part of this property is robustness to arguments (input generation); the simulator contributes writer faults, handle histories, the step budget, abort attribution and replay"],
@@ -692,7 +738,8 @@ impl Prop for C07 {
                 cuts = vec![cut];
             }
         }
-        serde_json::to_value(Case { entropy: rng.next_u64(), workload, write_faults, cuts }).unwrap()
+        let odd_env = rng.chance(1, 30);
+        serde_json::to_value(Case { entropy: rng.next_u64(), workload, write_faults, cuts, odd_env }).unwrap()
     }
     fn execute(&self, case: &Value, env: &WorkerEnv) -> Outcome {
         let case: Case = match serde_json::from_value(case.clone()) {
@@ -717,6 +764,11 @@ impl Prop for C07 {
         if !case.cuts.is_empty() {
             let mut c = case.clone();
             c.cuts.clear();
+            out.push(c);
+        }
+        if case.odd_env {
+            let mut c = case.clone();
+            c.odd_env = false;
             out.push(c);
         }
         if !case.write_faults.is_empty() {
